@@ -49,12 +49,60 @@ impl Prop for P {
                 }
             }
         }
+        // files of the older format versions 1 and 2 (written by the Coq reference encoder): get_key walks
+        // nodes through the transitions iterator, whose layout arithmetic depends on the version
+        {
+            let mut rng2 = Rng::new(77);
+            let mut picked: Vec<Vec<Vec<u8>>> = boundary_keysets(&mut rng2, tier).into_iter().map(|x| x.1).filter(|ks| ks.len() <= 300 && ks.iter().all(|k| k.len() <= 64)).collect();
+            for _ in 0..(if tier == Tier::Thorough { 200 } else { 30 }) {
+                picked.push(random_keyset(rng, 40, 6));
+            }
+            let mut reqs = vec![];
+            let mut meta = vec![];
+            for (i, ks) in picked.iter().enumerate() {
+                if tier != Tier::Thorough && i % 3 != 0 && ks.len() < 30 {
+                    continue;
+                }
+                let vals = increasing_values(ks.len(), rng, i % 2 == 0);
+                let ops = map_ops(&with_values(ks, &vals));
+                for v in [1u64, 2] {
+                    reqs.push((v, ops.clone()));
+                    meta.push((v, ops.clone(), vals.clone()));
+                }
+            }
+            let enc = crate::c10::encode_all(&reqs);
+            assert_eq!(enc.len(), meta.len(), "reference encoder produced {} of {} files", enc.len(), meta.len());
+            for ((v, ops, vals), bytes) in meta.into_iter().zip(enc) {
+                let mut qs: Vec<u64> = vec![0, 1, u64::MAX];
+                for &x in vals.iter().take(200) {
+                    qs.push(x);
+                    qs.push(x.wrapping_add(1));
+                }
+                qs.sort();
+                qs.dedup();
+                stats.bump(&format!("old_version_{}_files", v));
+                cases.push(format!("getkeyold {} {} {} ; {}", v, hex(&bytes), fmt_ops(&ops), qs.iter().map(|q| q.to_string()).collect::<Vec<_>>().join(" ")));
+            }
+        }
         cases
     }
     fn nontrivial(&self, case: &str) -> bool {
         case.contains(',')
     }
     fn execute(&self, case: &str) -> String {
+        if let Some(rest) = case.strip_prefix("getkeyold ") {
+            let mut it = rest.split(';');
+            let hd: Vec<&str> = it.next().unwrap().trim().split(' ').collect();
+            let bytes = unhex(hd[1]);
+            let qs: Vec<u64> = it.next().unwrap().trim().split(' ').filter(|s| !s.is_empty()).map(|s| s.parse().unwrap()).collect();
+            let f = match Fst::new(bytes) {
+                Ok(f) => f,
+                Err(e) => return format!("S:openfail:{}\tM:openfail\tX:ok", e),
+            };
+            let res: Vec<String> = qs.iter().map(|&q| f.get_key(q).map(|k| hex(&k)).unwrap_or("~".into())).collect();
+            let s = res.join(",");
+            return format!("S:{}\tM:{}\tX:ok", s, s);
+        }
         let rest = &case["getkey ".len()..];
         let mut it = rest.split(';');
         let ops = parse_ops(it.next().unwrap().trim());
